@@ -18,6 +18,8 @@ func init() {
 			dialerUpgradeRules(c, "C11")
 			indexResultRules(c, "C11")
 			c11BufferSizes(c)
+			c17Selection(c)
+			c17UnsafeViews(c)
 		},
 	})
 }
